@@ -59,6 +59,26 @@ var OutcomeNames = []string{"ok", "conflict", "unavailable", "other", "backoff"}
 
 const Tenant = "t1"
 
+// Names used by the history / split-tenant dimension.
+const (
+	SplitLabel  = "tenant_id" // --receive.split-tenant-label-name when Plan.Split is set
+	HeaderOther = "hdr"       // tenant named by the request when its series carry SplitLabel=Tenant (Plan.LastLabel)
+	SmallTenant = "small"     // tenant whose hashring has only RF-1 nodes (predecessor PreGetN)
+	BadTenant   = "not/valid" // split-label value that tenancy.IsTenantValid refuses
+)
+
+// Kinds of a request handled by the SAME handler before the observed one (Plan.Pre). A predecessor has its own
+// series (indices 100*(j+1)+i) placed on the same homes as the observed request, so that everything the handler
+// keeps between requests (pooled maps and slices, peer state) is keyed like the observed request's.
+const (
+	PreOK       = 1 // same shape as the observed request (homes, replica header, entry point); every destination stores; all replies delivered, cleanup awaited
+	PreConflict = 2 // same shape; every destination answers conflict, the request fails; all replies delivered, cleanup awaited
+	PreBadLabel = 3 // needs Split: fresh HTTP request, the same homes plus a trailing series whose split-tenant label value is not a valid tenant: rejected in distribution after the other series were placed
+	PreGetN     = 4 // needs RF >= 2: fresh HTTP request of SmallTenant (hashring of RF-1 nodes): replicas 0..RF-2 of its series are placed, replica RF-1 makes Hashring.GetN fail
+)
+
+var PreNames = []string{"none", "ok", "conflict", "bad-split-label", "getn-error"}
+
 // Topology of the rig: Nodes endpoints in a hashmod ring, replication factor RF, node Local is the handler
 // itself (-1: the handler is not a member, every destination is remote).
 type Topology struct {
@@ -89,8 +109,21 @@ type Rig struct {
 	Auto bool // stubs answer OK immediately (no gating); used by C26
 
 	mu      sync.Mutex
-	pending map[key]*call
+	pending map[key][]*call
 	stores  []Store
+	// expectation mode (set by begin, used by run): only the destinations of the request being handled are gated;
+	// a destination answers every call of one request alike
+	expected   map[key]bool
+	gatedMode  bool
+	decided    map[key]int
+	unexpected int // calls for a (node, replica) that holds no series of the request being handled (answered ok at once)
+	repeated   int // further calls to a destination that has already answered during this request
+}
+
+// Config are the handler options beyond the topology.
+type Config struct {
+	Split     bool // configure SplitLabel as the split-tenant label name
+	SmallRing bool // SmallTenant gets its own hashring made of the first RF-1 nodes
 }
 
 func endpoints(n int) []receive.Endpoint {
@@ -104,11 +137,21 @@ func endpoints(n int) []receive.Endpoint {
 
 // New builds the handler. When gating is used it must be called inside the synctest bubble (worker pools and
 // channels must belong to the bubble).
-func New(top Topology, auto bool) *Rig {
-	r := &Rig{Top: top, Auto: auto, pending: map[key]*call{}}
+func New(top Topology, auto bool) *Rig { return NewWith(top, auto, Config{}) }
+
+// SmallRingNodes is the size of SmallTenant's hashring.
+func SmallRingNodes(top Topology) int { return top.RF - 1 }
+
+func NewWith(top Topology, auto bool, cfg Config) *Rig {
+	r := &Rig{Top: top, Auto: auto, pending: map[key][]*call{}}
 	r.Eps = endpoints(top.Nodes)
-	hr, err := receive.NewMultiHashring(receive.AlgorithmHashmod, uint64(top.RF),
-		[]receive.HashringConfig{{Hashring: "verif", Endpoints: append([]receive.Endpoint(nil), r.Eps...)}}, nil)
+	var rings []receive.HashringConfig
+	if cfg.SmallRing {
+		rings = append(rings, receive.HashringConfig{Hashring: "small", Tenants: []string{SmallTenant},
+			Endpoints: append([]receive.Endpoint(nil), r.Eps[:SmallRingNodes(top)]...)})
+	}
+	rings = append(rings, receive.HashringConfig{Hashring: "verif", Endpoints: append([]receive.Endpoint(nil), r.Eps...)})
+	hr, err := receive.NewMultiHashring(receive.AlgorithmHashmod, uint64(top.RF), rings, nil)
 	if err != nil {
 		panic(err)
 	}
@@ -127,6 +170,9 @@ func New(top Topology, auto bool) *Rig {
 		AsyncForwardWorkerCount: 8, // >= destinations per peer, so no reply can queue behind a gated one
 		ReplicationProtocol:     receive.ProtobufReplication,
 		Endpoint:                "not-a-member:1",
+	}
+	if cfg.Split {
+		o.SplitTenantLabelName = SplitLabel
 	}
 	remote := map[receive.Endpoint]receive.VerifPeerClient{}
 	for i, ep := range r.Eps {
@@ -177,37 +223,90 @@ func (r *Rig) record(node, replica int, tenant string, ts prompb.TimeSeries) {
 	r.mu.Unlock()
 }
 
+// begin starts the handling of one request in expectation mode: exp lists the destinations (node, replica) that hold
+// series of this request. Calls to other destinations are answered ok at once and counted (they only happen on a
+// broken tree); once a destination was released, every further call of the same request gets the same answer.
+func (r *Rig) begin(exp []Dest) {
+	r.mu.Lock()
+	defer r.mu.Unlock()
+	r.gatedMode = true
+	r.expected = map[key]bool{}
+	r.decided = map[key]int{}
+	for _, d := range exp {
+		k := key{d.Node, d.Replica}
+		if d.Node == r.Top.Local {
+			k.replica = -1
+		}
+		r.expected[k] = true
+	}
+}
+
 // arrive registers the blocked call and waits for the harness to release it.
 func (r *Rig) arrive(k key) int {
 	if r.Auto {
 		return OK
 	}
-	c := &call{gate: make(chan int)}
 	r.mu.Lock()
-	if _, dup := r.pending[k]; dup {
-		r.mu.Unlock()
-		panic(fmt.Sprintf("rig: destination %v contacted twice", k))
+	if r.gatedMode {
+		if !r.expected[k] {
+			r.unexpected++
+			r.mu.Unlock()
+			return OK
+		}
+		if out, ok := r.decided[k]; ok {
+			r.repeated++
+			r.mu.Unlock()
+			return out
+		}
 	}
-	r.pending[k] = c
+	c := &call{gate: make(chan int)}
+	r.pending[k] = append(r.pending[k], c)
 	r.mu.Unlock()
 	return <-c.gate
 }
 
-// Release lets the blocked call of (node, replica) finish with the given outcome; false if it never arrived.
+// Release lets the blocked call(s) of (node, replica) finish with the given outcome; false if none arrived.
 func (r *Rig) Release(node, replica, outcome int) bool {
 	k := key{node, replica}
 	if node == r.Top.Local {
 		k.replica = -1
 	}
 	r.mu.Lock()
-	c := r.pending[k]
+	cs := r.pending[k]
 	delete(r.pending, k)
-	r.mu.Unlock()
-	if c == nil {
-		return false
+	if len(cs) > 0 && r.decided != nil {
+		r.decided[k] = outcome
+		r.repeated += len(cs) - 1
 	}
-	c.gate <- outcome
-	return true
+	r.mu.Unlock()
+	for _, c := range cs {
+		c.gate <- outcome
+	}
+	return len(cs) > 0
+}
+
+// flush releases whatever is still blocked (answer: other error); returns how many destinations that were.
+func (r *Rig) flush() int {
+	r.mu.Lock()
+	var ks []key
+	for k := range r.pending {
+		ks = append(ks, k)
+	}
+	r.mu.Unlock()
+	for _, k := range ks {
+		r.mu.Lock()
+		cs := r.pending[k]
+		delete(r.pending, k)
+		if r.decided != nil {
+			r.decided[k] = Other
+		}
+		r.mu.Unlock()
+		for _, c := range cs {
+			c.gate <- Other
+		}
+		synctest.Wait()
+	}
+	return len(ks)
 }
 
 // Arrived lists the destinations currently blocked in a stub.
@@ -367,6 +466,7 @@ type Request struct {
 	GRPC    bool                // true: Handler.RemoteWrite (the entry used by peers); false: HTTP receive endpoint
 	Rep     int                 // replica header / WriteRequest.Replica (0: not yet replicated)
 	Series  []prompb.TimeSeries // v1 payload
+	Tenant  string              // tenant named by the request ("" = Tenant)
 	RawBody []byte              // HTTP only: uncompressed protobuf body sent instead of Series
 	Headers map[string]string   // HTTP only: extra headers
 }
@@ -392,8 +492,12 @@ func (r *Rig) exec(rq Request) (resp Response) {
 		}
 		resp.Returned = true
 	}()
+	tenant := rq.Tenant
+	if tenant == "" {
+		tenant = Tenant
+	}
 	if rq.GRPC {
-		in := &storepb.WriteRequest{Replica: int64(rq.Rep), TimeseriesTenantData: []storepb.TimeSeriesTenantTuple{{Tenant: Tenant, Timeseries: rq.Series}}}
+		in := &storepb.WriteRequest{Replica: int64(rq.Rep), TimeseriesTenantData: []storepb.TimeSeriesTenantTuple{{Tenant: tenant, Timeseries: rq.Series}}}
 		_, err := r.H.RemoteWrite(context.Background(), in)
 		resp.Status = 200
 		if err != nil {
@@ -411,7 +515,7 @@ func (r *Rig) exec(rq Request) (resp Response) {
 		body = b
 	}
 	hr := httptest.NewRequest(http.MethodPost, "/api/v1/receive", bytes.NewReader(s2.EncodeSnappy(nil, body)))
-	hr.Header.Set("THANOS-TENANT", Tenant)
+	hr.Header.Set("THANOS-TENANT", tenant)
 	if rq.Rep != 0 {
 		hr.Header.Set(receive.DefaultReplicaHeader, strconv.Itoa(rq.Rep))
 	}
@@ -450,10 +554,13 @@ func (r *Rig) Start(rq Request) (poll func() (Response, bool)) {
 }
 
 // SeriesAt returns series number idx, labelled so that the hashmod ring of n nodes places its replica 0 on node home.
-func SeriesAt(n, idx, home int) prompb.TimeSeries {
+func SeriesAt(n, idx, home int) prompb.TimeSeries { return seriesFor(Tenant, n, idx, home) }
+
+// seriesFor is SeriesAt for a given tenant (the tenant is part of the placement hash).
+func seriesFor(tenant string, n, idx, home int) prompb.TimeSeries {
 	seriesMu.Lock()
 	defer seriesMu.Unlock()
-	k := [3]int{n, idx, home}
+	k := seriesKey{tenant, n, idx, home}
 	if v, ok := seriesCache[k]; ok {
 		return mkSeries(idx, v)
 	}
@@ -465,7 +572,7 @@ func SeriesAt(n, idx, home int) prompb.TimeSeries {
 	for j := 0; ; j++ {
 		v := fmt.Sprintf("%d-%d", idx, j)
 		ts := mkSeries(idx, v)
-		ep, err := hr.GetN(Tenant, &ts, 0)
+		ep, err := hr.GetN(tenant, &ts, 0)
 		if err != nil {
 			panic(err)
 		}
@@ -476,10 +583,33 @@ func SeriesAt(n, idx, home int) prompb.TimeSeries {
 	}
 }
 
+type seriesKey struct {
+	tenant       string
+	n, idx, home int
+}
+
 var (
 	seriesMu    sync.Mutex
-	seriesCache = map[[3]int]string{}
+	seriesCache = map[seriesKey]string{}
 )
+
+// withSplitLabel returns the series with the label SplitLabel=value added (labels stay sorted: "__name__" < "tenant_id" < "v").
+func withSplitLabel(ts prompb.TimeSeries, value string) prompb.TimeSeries {
+	out := ts
+	out.Labels = make([]labelpb.ZLabel, 0, len(ts.Labels)+1)
+	done := false
+	for _, l := range ts.Labels {
+		if !done && l.Name > SplitLabel {
+			out.Labels = append(out.Labels, labelpb.ZLabel{Name: SplitLabel, Value: value})
+			done = true
+		}
+		out.Labels = append(out.Labels, l)
+	}
+	if !done {
+		out.Labels = append(out.Labels, labelpb.ZLabel{Name: SplitLabel, Value: value})
+	}
+	return out
+}
 
 func mkSeries(idx int, v string) prompb.TimeSeries {
 	return prompb.TimeSeries{
@@ -517,6 +647,18 @@ type Plan struct {
 	GRPC     bool     `json:"grpc"`     // entry point
 	Outcomes []int    `json:"outcomes"` // per destination (canonical order of Dests)
 	Order    []int    `json:"order"`    // release order: indices into Dests (Backoff destinations are not listed)
+	// history / configuration dimension (all zero: one request on a fresh handler without split-tenant label)
+	Split     bool  `json:"split,omitempty"`      // the split-tenant label name is configured (SplitLabel)
+	LastLabel bool  `json:"last_label,omitempty"` // needs Split: the observed request names tenant HeaderOther and its series carry SplitLabel=Tenant
+	Pre       []int `json:"pre,omitempty"`        // kinds (Pre*) of the requests the same handler handled before the observed one, oldest first
+}
+
+// PreTrace is the observation of one predecessor request.
+type PreTrace struct {
+	Kind      int
+	Resp      Response
+	Contacted int     // destinations that reached a stub while it was handled
+	Stored    [][]int // per series of the predecessor: distinct nodes that recorded it by the end of the experiment
 }
 
 // Dests computes the canonical destination list of a plan from the hashmod placement (series i replica r lives
@@ -558,6 +700,27 @@ type Trace struct {
 	NotContacted  []int   // destinations that never reached their stub although not in back-off
 	Quorum        int
 	HarnessErr    string
+	Pre           []PreTrace
+	Unexpected    int // stub calls for a (node, replica) holding no series of the request being handled (answered ok at once; 0 on a correct tree)
+	Repeated      int // further calls of one request to a destination that had already been called (0 on a correct tree)
+}
+
+// storedAnywhere lists the distinct nodes that recorded a series with index idx (any tenant, any replica number).
+func (r *Rig) storedAnywhere(idx int) []int {
+	var out []int
+	for _, st := range r.Stores() {
+		if SeriesIndex(st.TS) != idx {
+			continue
+		}
+		dup := false
+		for _, n := range out {
+			dup = dup || n == st.Node
+		}
+		if !dup {
+			out = append(out, st.Node)
+		}
+	}
+	return out
 }
 
 func (r *Rig) storedNodes(series []prompb.TimeSeries, rf int) [][]int {
@@ -596,8 +759,53 @@ func Run(t *testing.T, p Plan) Trace {
 	return tr
 }
 
+// preRequest builds predecessor number j of the plan: the request and the destinations it will reach.
+func (r *Rig) preRequest(p Plan, j, kind int) (rq Request, dests []Dest, idx []int, err string) {
+	base := 100 * (j + 1)
+	switch kind {
+	case PreOK, PreConflict:
+		for i, h := range p.Homes {
+			rq.Series = append(rq.Series, SeriesAt(p.Top.Nodes, base+i, h))
+			idx = append(idx, base+i)
+		}
+		rq.GRPC, rq.Rep = p.GRPC, p.Rep
+		return rq, Dests(p.Top, p.Homes, p.Rep), idx, ""
+	case PreBadLabel:
+		if !p.Split {
+			return rq, nil, nil, "predecessor bad-split-label needs the split-tenant label to be configured"
+		}
+		for i, h := range p.Homes {
+			rq.Series = append(rq.Series, SeriesAt(p.Top.Nodes, base+i, h))
+			idx = append(idx, base+i)
+		}
+		rq.Series = append(rq.Series, withSplitLabel(mkSeries(base+99, "x"), BadTenant))
+		idx = append(idx, base+99)
+		return rq, nil, idx, ""
+	case PreGetN:
+		n := SmallRingNodes(p.Top)
+		if n < 1 {
+			return rq, nil, nil, "predecessor getn-error needs a replication factor >= 2"
+		}
+		ts := seriesFor(SmallTenant, n, base, p.Homes[0]%n)
+		// the construction must be what it claims: replicas 0..RF-2 are placed, replica RF-1 is refused by the hashring
+		for rep := 0; rep < p.Top.RF; rep++ {
+			_, e := r.HR.GetN(SmallTenant, &ts, uint64(rep))
+			if (e != nil) != (rep == p.Top.RF-1) {
+				return rq, nil, nil, fmt.Sprintf("small hashring: GetN of replica %d gave err=%v", rep, e)
+			}
+		}
+		rq.Series, rq.Tenant = []prompb.TimeSeries{ts}, SmallTenant
+		return rq, nil, []int{base}, ""
+	}
+	return rq, nil, nil, fmt.Sprintf("unknown predecessor kind %d", kind)
+}
+
 func run(p Plan) (tr Trace) {
-	r := New(p.Top, false)
+	hasGetN := false
+	for _, k := range p.Pre {
+		hasGetN = hasGetN || k == PreGetN
+	}
+	r := NewWith(p.Top, false, Config{Split: p.Split, SmallRing: hasGetN})
 	defer func() {
 		r.Close()
 		synctest.Wait()
@@ -621,12 +829,65 @@ func run(p Plan) (tr Trace) {
 		tr.HarnessErr = "outcome vector does not match destination list"
 		return tr
 	}
+	if p.LastLabel && !p.Split {
+		tr.HarnessErr = "last_label needs the split-tenant label to be configured"
+		return tr
+	}
+	// ---- history: the requests this handler handled before the observed one, one at a time, each run to its end
+	// (all replies delivered in canonical order, handler returned, clean-up goroutine finished) ----
+	var preIdx [][]int
+	for j, kind := range p.Pre {
+		rq, dests, idx, herr := r.preRequest(p, j, kind)
+		if herr != "" {
+			tr.HarnessErr = herr
+			return tr
+		}
+		pt := PreTrace{Kind: kind}
+		out := OK
+		if kind == PreConflict {
+			out = Conflict
+		}
+		r.begin(dests)
+		poll := r.Start(rq)
+		synctest.Wait()
+		for _, d := range dests {
+			if r.Release(d.Node, d.Replica, out) {
+				pt.Contacted++
+				synctest.Wait()
+			}
+		}
+		tr.Unexpected += r.flush()
+		resp, ok := poll()
+		if !ok {
+			time.Sleep(2 * time.Hour) // forward timeout
+			synctest.Wait()
+			tr.Unexpected += r.flush()
+			if resp, ok = poll(); !ok {
+				tr.HarnessErr = fmt.Sprintf("predecessor %d (%s) never returned", j, PreNames[kind])
+				return tr
+			}
+		}
+		synctest.Wait()
+		pt.Resp = resp
+		tr.Pre = append(tr.Pre, pt)
+		preIdx = append(preIdx, idx)
+	}
+	// ---- the observed request ----
 	for i, d := range tr.Dests {
 		if p.Outcomes[i] == Backoff {
 			r.H.VerifMarkPeerUnavailable(r.Eps[d.Node])
 		}
 	}
-	poll := r.Start(Request{GRPC: p.GRPC, Rep: p.Rep, Series: series})
+	rq := Request{GRPC: p.GRPC, Rep: p.Rep, Series: series}
+	if p.LastLabel {
+		rq.Tenant = HeaderOther
+		rq.Series = make([]prompb.TimeSeries, len(series))
+		for i := range series {
+			rq.Series[i] = withSplitLabel(series[i], Tenant)
+		}
+	}
+	r.begin(tr.Dests)
+	poll := r.Start(rq)
 	synctest.Wait()
 	tr.ReturnedAfter = -1
 	check := func(step int) {
@@ -652,11 +913,7 @@ func run(p Plan) (tr Trace) {
 	if r.Arrived() != 0 {
 		tr.HarnessErr = "calls still blocked after the whole order was released (order does not cover all destinations)"
 		// release them so that the bubble can end
-		for _, d := range tr.Dests {
-			if r.Release(d.Node, d.Replica, Other) {
-				synctest.Wait()
-			}
-		}
+		r.flush()
 	}
 	if tr.ReturnedAfter < 0 {
 		// every reply delivered but the handler is still blocked: let virtual time run to the forward timeout
@@ -669,5 +926,14 @@ func run(p Plan) (tr Trace) {
 		tr.StoredAtRet = r.storedNodes(series, p.Top.RF)
 	}
 	tr.StoredFinal = r.storedNodes(series, p.Top.RF)
+	for j := range tr.Pre {
+		for _, idx := range preIdx[j] {
+			tr.Pre[j].Stored = append(tr.Pre[j].Stored, r.storedAnywhere(idx))
+		}
+	}
+	r.mu.Lock()
+	tr.Unexpected += r.unexpected
+	tr.Repeated = r.repeated
+	r.mu.Unlock()
 	return tr
 }
